@@ -409,7 +409,17 @@ impl<
         }
         let search = self.timestamps().binary_search(&timestamp);
         let index = match search {
-            Ok(i) | Err(i) => i.checked_sub(1)?,
+            // Transition times can be repeated (degenerate `zic` output,
+            // or times clamped to the supported range, including the dummy
+            // transition), so find the first of them to guarantee that we
+            // make progress.
+            Ok(mut i) => {
+                while i > 0 && self.timestamps()[i - 1] == timestamp {
+                    i -= 1;
+                }
+                i.checked_sub(1)?
+            }
+            Err(i) => i.checked_sub(1)?,
         };
         let index = if index == 0 {
             // The first transition is a dummy that we insert, so if we land on
@@ -465,7 +475,13 @@ impl<
         }
         let search = self.timestamps().binary_search(&timestamp);
         let index = match search {
-            Ok(i) => i.checked_add(1)?,
+            // As above, but find the last of any duplicates.
+            Ok(mut i) => {
+                while self.timestamps().get(i + 1) == Some(&timestamp) {
+                    i += 1;
+                }
+                i.checked_add(1)?
+            }
             Err(i) => i,
         };
         let index = if index == 0 {
